@@ -943,6 +943,10 @@ func writeEvidence(o *options, p *Prop, agg, raceAgg *batchAgg, wall float64, nV
 	if err != nil {
 		return err
 	}
+	// the interface file is rewritten on every run; a per-tier copy keeps the last thorough
+	// batch visible after later quick runs
+	os.MkdirAll(filepath.Join(o.evidenceDir, "by-tier"), 0o755)
+	_ = os.WriteFile(filepath.Join(o.evidenceDir, "by-tier", p.ID+"."+o.tier+".json"), b, 0o644)
 	return os.WriteFile(filepath.Join(o.evidenceDir, p.ID+".json"), b, 0o644)
 }
 
